@@ -423,7 +423,11 @@ func TestPropRemovalCutsInflight(t *testing.T) {
 					t.Fatalf("bystander %+v ended %v after the removal (err %v)\nplan: %s", bys[i], ended.Sub(removedAt), err, plan)
 				}
 				if bys[i].streaming && n < byChunksAtRemoval[i]+5 {
-					t.Fatalf("bystander stream %+v stalled after the removal (%d chunks at removal, %d 300 ms later)\nplan: %s", bys[i], byChunksAtRemoval[i], n, plan)
+					// 30 chunks are due in 300 ms; on a heavily loaded machine fewer may have arrived: a stream that is
+					// really stalled makes no progress in two more seconds either
+					if i := i; !waitFor(2*time.Second, func() bool { m, _, _, _ := s.snapshot(); return m >= byChunksAtRemoval[i]+5 }) {
+						t.Fatalf("bystander stream %+v stalled after the removal (%d chunks at removal, %d 300 ms later, no progress in 2 more seconds)\nplan: %s", bys[i], byChunksAtRemoval[i], n, plan)
+					}
 				}
 			}
 			for i, s := range bystanders {
